@@ -78,7 +78,10 @@ static void run_case(uint64_t c) {
                 rec[gk.c_str()]   = Memory::Move(val);
                 rm.upsert(gk)     = kvv;
             } else {
-                S name = others[r.below(7)];
+                // (one name in six has an embedded NUL or is the equal-hash prefix of another name: only the stored length
+                // tells "p\0x" from "p\0y" from "p", and "s" from "sh")
+                static const S odd[] = {S("p\0x", 3), S("p\0y", 3), S("p", 1), S("s", 1), S("sh", 2), S("\0", 1)};
+                S name = r.chance(1, 6) ? odd[r.below(6)] : S(others[r.below(7)]);
                 if (std::find(used.begin(), used.end(), name) != used.end()) continue;
                 used.push_back(name);
                 V e;
@@ -103,14 +106,14 @@ static void run_case(uint64_t c) {
                         em = M::U(1);
                     }
                 }
-                rec[name.c_str()] = Memory::Move(e);
-                rm.upsert(name)   = em;
+                rec[String<C>((const C *)name.data(), SizeT(name.size()))] = Memory::Move(e);
+                rm.upsert(name)                                             = em;
             }
         }
         if (will_remove && !used.empty()) {
             // a removed member before or after the key
             const S &victim = used[r.below(uint32_t(used.size()))];
-            rec.Remove(victim.c_str());
+            rec.Remove(String<C>((const C *)victim.data(), SizeT(victim.size())));
             int mi = rm.find(victim);
             rm.obj[size_t(mi)].live = false;
             rm.obj[size_t(mi)].val.reset();
